@@ -1840,6 +1840,11 @@ Htrunc(int32 aid, int32 trunc_len)
     if (access_rec == (accrec_t *)NULL || !(access_rec->access & DFACC_WRITE))
         HGOTO_ERROR(DFE_ARGS, FAIL);
 
+    /* Truncating a special element is not implemented: the DD behind the access record is that of the
+       element's description record, not of its data.  Refuse instead of cutting that record. */
+    if (access_rec->special)
+        HGOTO_ERROR(DFE_ARGS, FAIL);
+
         /* Dunno about truncating special elements... -QAK */
 #ifdef DONT_KNOW
     /* if special elt, call special function */
